@@ -66,6 +66,69 @@ class FifoMonitor(Monitor):
         self.check(D.b_implies(nonempty, D.v_eq(outs["front"], self.q[0], EW)), "front differs from oldest element")
 
 
+def dfifo_design(N, txd, rxd):
+    """delayed Fifo: producer and consumer in two different contexts, each gating its request with the flag it sees"""
+    a = ", ".join(f"{k}={v}" for k, v in (("tx_delay", txd), ("rx_delay", rxd)) if v)
+    lines = [HEADER, "class W(cohdl.Entity):", "    clk = Port.input(Bit)", "    reset = Port.input(Bit)",
+             f"    data_in = Port.input(Unsigned[{EW}])", "    push = Port.input(Bit)", "    pop = Port.input(Bit)",
+             f"    data_out = Port.output(Unsigned[{EW}], default=Null)",
+             "    pushed = Port.output(Bit, default=False)", "    popped = Port.output(Bit, default=False)",
+             "    obs_full = Port.output(Bit, default=False)", "    obs_empty = Port.output(Bit, default=False)",
+             "    def architecture(self):",
+             "        ctx_p = std.SequentialContext(std.Clock(self.clk), std.Reset(self.reset))",
+             "        ctx_c = std.SequentialContext(std.Clock(self.clk), std.Reset(self.reset))",
+             f"        fifo = std.Fifo[Unsigned[{EW}], {N}]({a})",
+             "        @ctx_p", "        def producer():", "            self.obs_full ^= fifo.full()",
+             "            if self.push and not fifo.full():", "                fifo.push(self.data_in)", "                self.pushed ^= True",
+             "        @ctx_c", "        def consumer():", "            self.obs_empty ^= fifo.empty()",
+             "            if self.pop and not fifo.empty():", "                self.data_out <<= fifo.pop()", "                self.popped ^= True"]
+    return "\n".join(lines) + "\n"
+
+
+class DFifoMonitor(Monitor):
+    """ghost queue; the flags each side sees may lag (conservatively) by the index hand-over, never the other way:
+    safety  -- an accepted pop returns the oldest pushed element, 'not full' implies room, 'not empty' implies content
+    progress -- after D clocks without a pop the producer's full flag is exact, after D clocks without a push the
+                consumer's empty flag is exact (D = 2*(tx+rx)+6: two rounds of the set/clear hand-over)"""
+
+    def __init__(self, N, D_):
+        super().__init__()
+        self.cap = N - 1
+        self.q = [0] * self.cap
+        self.len = 0
+        self.last = 0
+        self.D = D_
+        self.qpush = 0  # clocks since the last accepted push / pop (saturating, 5 bit)
+        self.qpop = 0
+
+    def step(self, i, ins, outs):
+        LW, CW = 3, 5
+        rst = bit(ins["reset"])
+        pushed, popped = bit(outs["pushed"]), bit(outs["popped"])
+        obs_full, obs_empty = bit(outs["obs_full"]), bit(outs["obs_empty"])
+        nrst = D.b_not(rst)
+        is_full, is_empty = D.v_eq(self.len, self.cap, LW), D.v_eq(self.len, 0, LW)
+        self.check(D.b_implies(rst, D.b_not(D.b_or(pushed, popped))), "transfer during reset")
+        self.check(D.b_implies(D.b_and(nrst, D.b_not(obs_full)), D.b_not(is_full)), "producer sees 'not full' while N-1 elements are stored")
+        self.check(D.b_implies(D.b_and(nrst, D.b_not(obs_empty)), D.b_not(is_empty)), "consumer sees 'not empty' while nothing is stored")
+        self.check(D.b_eq(pushed, D.b_and(nrst, D.b_and(bit(ins["push"]), D.b_not(obs_full)))), "wrapper: pushed")
+        self.check(D.b_eq(popped, D.b_and(nrst, D.b_and(bit(ins["pop"]), D.b_not(obs_empty)))), "wrapper: popped")
+        self.check(D.b_implies(D.b_and(nrst, D.v_ule(self.D, self.qpop, CW)), D.b_eq(obs_full, is_full)), "producer's full flag not exact after the hand-over settled")
+        self.check(D.b_implies(D.b_and(nrst, D.v_ule(self.D, self.qpush, CW)), D.b_eq(obs_empty, is_empty)), "consumer's empty flag not exact after the hand-over settled")
+        head = self.q[0]
+        q1 = [mux(popped, self.q[k + 1] if k + 1 < self.cap else 0, self.q[k], EW) for k in range(self.cap)]
+        len1 = mux(popped, D.v_sub(self.len, 1, LW), self.len, LW)
+        q2 = [mux(D.b_and(pushed, D.v_eq(len1, k, LW)), ins["data_in"], q1[k], EW) for k in range(self.cap)]
+        len2 = mux(pushed, D.v_add(len1, 1, LW), len1, LW)
+        self.q = [mux(rst, 0, v, EW) for v in q2]
+        self.len = mux(rst, 0, len2, LW)
+        self.last = mux(rst, 0, mux(popped, head, self.last, EW), EW)
+        self.check(D.v_eq(outs["data_out"], self.last, EW), "popped value differs from the oldest pushed element (loss, duplicate or reordering)")
+        sat = lambda c: mux(D.v_eq(c, 31, CW), 31, D.v_add(c, 1, CW), CW)
+        self.qpush = mux(D.b_or(rst, pushed), 0, sat(self.qpush), CW)
+        self.qpop = mux(D.b_or(rst, popped), 0, sat(self.qpop), CW)
+
+
 def stack_design(N, mode):
     m = {"default": "", "no_overflow": "mode=std.StackMode.NO_OVERFLOW", "drop_old": "mode=std.StackMode.DROP_OLD"}[mode]
     lines = [HEADER, "class W(cohdl.Entity):", "    clk = Port.input(Bit)", "    reset = Port.input(Bit)",
@@ -136,6 +199,12 @@ def jobs(tier):
         for ctxs in (2, 1):
             K = 3 * N + 4
             js.append((f"Fifo|N={N}|contexts={ctxs}", fifo_design(N, ctxs), {"reset": 1, "data_in": EW, "push": 1, "pop": 1}, ["data_out", "front", "empty", "full"], K, lambda N=N: FifoMonitor(N)))
+    dcfg = [(3, 1, 1, 0), (4, 1, 0, 0), (3, 0, 1, 0)] if tier == "quick" else [(N, t, r, 0) for N in (3, 4, 5) for t, r in ((1, 1), (1, 0), (0, 1), (2, 1), (2, 2))]
+    for N, t, r, _ in dcfg:
+        Dq = 2 * (t + r) + 6
+        K = Dq + 2 * N + 2
+        js.append((f"Fifo|N={N}|tx_delay={t}|rx_delay={r}|two contexts", dfifo_design(N, t, r), {"reset": 1, "data_in": EW, "push": 1, "pop": 1},
+                   ["data_out", "pushed", "popped", "obs_full", "obs_empty"], K, lambda N=N, Dq=Dq: DFifoMonitor(N, Dq)))
     for N in Ns:
         for mode in ("default", "drop_old") if tier == "quick" else ("default", "no_overflow", "drop_old"):
             K = 3 * N + 4
